@@ -44,7 +44,7 @@ def check_message_immutability():
     files = [os.path.join(CORE, "message.rs")] + [os.path.join(CORE, "message", f) for f in sorted(os.listdir(os.path.join(CORE, "message")))]
     for p in files:
         src = strip_comments(read(p)).split("#[cfg(test)]")[0]
-        for tok in ("unsafe", "get_mut(", "make_mut(", "RefCell", "Cell<", "Mutex", "RwLock", "Atomic", "as_mut_ptr", "get_mut_unchecked"):
+        for tok in ("unsafe", "get_mut(", "make_mut(", "RefCell", "Cell<", "Mutex", "RwLock", "Atomic", "OnceLock", "OnceCell", "LazyLock", "LazyCell", "as_mut_ptr", "get_mut_unchecked"):
             if tok in src:
                 bad.append(f"{os.path.relpath(p, REPO)}: `{tok}`")
     if bad:
